@@ -4,22 +4,70 @@ Object mode: `write_to_disk(obj, path)` stores a structural copy of obj under
 the path the *real* code computed; `read_from_disk(path)` returns it or raises
 FileNotFoundError.  Directories are explicit.  rmtree removes entry by entry.
 """
+import contextlib
 import fnmatch
 import posixpath
 
 from ..common import HarnessError
 
+try:
+    from crosshair.tracers import NoTracing as _NoTracing, is_tracing as _is_tracing
+    from crosshair.core import deep_realize as _deep_realize
+except Exception:  # crosshair absent: plain execution
+    _NoTracing = contextlib.nullcontext
+
+    def _is_tracing():
+        return False
+
+    def _deep_realize(x):
+        return x
+
+
+def native(fn):
+    """Run a stub method outside CrossHair's opcode tracing.
+
+    Sound because the method only handles *concrete* path strings: any
+    argument that is not a real str/int is realised first (which forks, under
+    the solver, over its feasible values) and stored objects are treated as
+    opaque leaves."""
+
+    def wrapper(self, *args, **kw):
+        if _is_tracing():
+            args = tuple(_concrete_path(a) for a in args)
+            kw = {k: _concrete_path(v) for k, v in kw.items()}
+            with _NoTracing():
+                return fn(self, *args, **kw)
+        return fn(self, *args, **kw)
+
+    wrapper.__name__ = fn.__name__
+    return wrapper
+
+
+def _concrete_path(a):
+    with _NoTracing():
+        ok = type(a) in (str, int, bool, type(None))
+    return a if ok else _deep_realize(a)
+
+
+def _snap(o):
+    t = type(o)
+    if t is list:
+        return [_snap(x) for x in o]
+    if t is tuple:
+        return tuple(_snap(x) for x in o)
+    if t is dict:
+        return {k: _snap(v) for k, v in o.items()}
+    return o
+
 
 def snap(o):
-    """Structural copy (containers copied, leaves shared): what a pickle round
-    trip guarantees as far as xyzpy's own containers are concerned."""
-    if isinstance(o, list):
-        return [snap(x) for x in o]
-    if isinstance(o, tuple):
-        return tuple(snap(x) for x in o)
-    if isinstance(o, dict):
-        return {k: snap(v) for k, v in o.items()}
-    return o
+    """Structural copy (real list/tuple/dict containers copied, leaves - incl.
+    symbolic values and proxies - shared): what a pickle round trip guarantees
+    as far as xyzpy's own containers are concerned."""
+    if _is_tracing():
+        with _NoTracing():
+            return _snap(o)
+    return _snap(o)
 
 
 class FakeFS:
@@ -35,6 +83,7 @@ class FakeFS:
             raise TypeError("path must be str, not %r" % type(p))
         return posixpath.normpath(p)
 
+    @native
     def makedirs(self, p, exist_ok=False):
         p = self._norm(p)
         if p in self.files:
@@ -50,21 +99,32 @@ class FakeFS:
                 raise NotADirectoryError(d)
             self.dirs.add(d)
 
+    @native
     def exists(self, p):
         p = self._norm(p)
         return p in self.files or p in self.dirs
 
+    @native
     def isfile(self, p):
         return self._norm(p) in self.files
 
+    @native
     def isdir(self, p):
         return self._norm(p) in self.dirs
 
+    @native
     def access_w(self, p):
         p = self._norm(p)
         return (p in self.files or p in self.dirs) and p not in self.readonly
 
     def put(self, p, obj):
+        if _is_tracing():
+            p = _concrete_path(p)
+            with _NoTracing():
+                return self._put(p, obj)
+        return self._put(p, obj)
+
+    def _put(self, p, obj):
         p = self._norm(p)
         if posixpath.dirname(p) not in self.dirs:
             raise FileNotFoundError(p)
@@ -73,6 +133,7 @@ class FakeFS:
         self.files[p] = obj
         self.oplog.append(("put", p))
 
+    @native
     def get(self, p):
         p = self._norm(p)
         if p in self.dirs:
@@ -81,6 +142,7 @@ class FakeFS:
             raise FileNotFoundError(p)
         return self.files[p]
 
+    @native
     def remove(self, p):
         p = self._norm(p)
         if p in self.dirs:
@@ -90,6 +152,7 @@ class FakeFS:
         del self.files[p]
         self.oplog.append(("remove", p))
 
+    @native
     def replace(self, a, b):
         a, b = self._norm(a), self._norm(b)
         if a not in self.files:
@@ -99,6 +162,7 @@ class FakeFS:
         self.files[b] = self.files.pop(a)
         self.oplog.append(("replace", a, b))
 
+    @native
     def rmtree(self, p):
         p = self._norm(p)
         if p not in self.dirs:
@@ -112,6 +176,7 @@ class FakeFS:
         for d in sorted((d for d in self.dirs if d == p or d.startswith(pre)), reverse=True):
             self.dirs.discard(d)
 
+    @native
     def glob(self, pat):
         d = posixpath.dirname(pat)
         base = posixpath.basename(pat)
@@ -121,6 +186,7 @@ class FakeFS:
                 out.append(k)
         return sorted(out)
 
+    @native
     def listdir(self, p):
         p = self._norm(p)
         return sorted(
@@ -129,6 +195,7 @@ class FakeFS:
             if posixpath.dirname(k) == p and k != p
         )
 
+    @native
     def tree(self, p):
         """All file paths under p (for 'nothing changed' comparisons)."""
         p = self._norm(p)
@@ -136,13 +203,24 @@ class FakeFS:
         return {k: self.files[k] for k in self.files if k.startswith(pre)}
 
 
+def _native_static(fn):
+    def wrapper(*args):
+        if _is_tracing():
+            args = tuple(_concrete_path(a) for a in args)
+            with _NoTracing():
+                return fn(*args)
+        return fn(*args)
+
+    return staticmethod(wrapper)
+
+
 class FakePath:
-    join = staticmethod(posixpath.join)
-    split = staticmethod(posixpath.split)
-    relpath = staticmethod(posixpath.relpath)
-    basename = staticmethod(posixpath.basename)
-    dirname = staticmethod(posixpath.dirname)
-    splitext = staticmethod(posixpath.splitext)
+    join = _native_static(posixpath.join)
+    split = _native_static(posixpath.split)
+    relpath = _native_static(posixpath.relpath)
+    basename = _native_static(posixpath.basename)
+    dirname = _native_static(posixpath.dirname)
+    splitext = _native_static(posixpath.splitext)
     expanduser = staticmethod(lambda p: p)
 
     def __init__(self, fs):
